@@ -32,19 +32,27 @@ func (s *shrinker) try(sc scen.Scenario, tape []uint32) bool {
 	}
 	s.runs++
 	rf := &replayFile{Property: s.prop, Format: 1, Scenario: sc, Tape: tape, Signature: s.sig, Race: s.race}
-	o := s.b.runWorker(s.prop, s.tier, job{replay: rf, race: s.race}, false, false)
-	if o.err != "" {
-		return false
+	// The schedule is exactly repeatable, but the race detector keeps a bounded, randomly evicted
+	// access history: an identical execution does not report every race every time. Try a few times.
+	attempts := 1
+	if s.race {
+		attempts = 3
 	}
-	vs, infra := violationsOf(s.prop, o.rep)
-	if infra != "" {
-		return false
-	}
-	for _, v := range vs {
-		if v.sig() == s.sig {
-			s.last = o.rep
-			s.lastV = v
-			return true
+	for a := 0; a < attempts; a++ {
+		o := s.b.runWorker(s.prop, s.tier, job{replay: rf, race: s.race}, false, false)
+		if o.err != "" {
+			return false
+		}
+		vs, infra := violationsOf(s.prop, o.rep)
+		if infra != "" {
+			return false
+		}
+		for _, v := range vs {
+			if v.sig() == s.sig {
+				s.last = o.rep
+				s.lastV = v
+				return true
+			}
 		}
 	}
 	return false
@@ -62,15 +70,21 @@ func withoutOps(ops []scen.Op, from, to int) []scen.Op {
 func (b *builder) minimiseAndSave(prop, tier string, f *foundV) (string, bool, string) {
 	sig := f.v.sig()
 	// 1. reproduce from the seed and capture the consumed tape
-	o := b.runWorker(prop, tier, job{family: f.job.family, seed: f.job.seed, race: f.job.race}, false, true)
-	if o.err != "" {
-		return "", false, "re-run failed: " + o.err
-	}
-	vs, _ := violationsOf(prop, o.rep)
+	var o outcome
 	ok := false
-	for _, v := range vs {
-		if v.sig() == sig {
-			ok = true
+	for a := 0; a < 4 && !ok; a++ {
+		o = b.runWorker(prop, tier, job{family: f.job.family, seed: f.job.seed, race: f.job.race}, false, true)
+		if o.err != "" {
+			return "", false, "re-run failed: " + o.err
+		}
+		vs, _ := violationsOf(prop, o.rep)
+		for _, v := range vs {
+			if v.sig() == sig {
+				ok = true
+			}
+		}
+		if !f.job.race {
+			break
 		}
 	}
 	if !ok {
@@ -151,19 +165,26 @@ func (b *builder) minimiseAndSave(prop, tier string, f *foundV) (string, bool, s
 	var detail string
 	var trace []string
 	for _, procs := range []int{1, 16} {
-		o := b.runWorker(prop, tier, job{replay: rf, race: f.job.race, procs: procs}, true, false)
-		if o.err != "" {
-			return "", false, "final replay failed: " + o.err
-		}
-		vs, infra := violationsOf(prop, o.rep)
-		if infra != "" {
-			return "", false, "final replay: " + infra
-		}
 		hit := false
-		for _, v := range vs {
-			if v.sig() == sig {
-				hit = true
-				detail = v.Detail
+		var o outcome
+		attempts := 1
+		if f.job.race {
+			attempts = 4 // see shrinker.try: the detector's report of one execution is not guaranteed
+		}
+		for a := 0; a < attempts && !hit; a++ {
+			o = b.runWorker(prop, tier, job{replay: rf, race: f.job.race, procs: procs}, true, false)
+			if o.err != "" {
+				return "", false, "final replay failed: " + o.err
+			}
+			vs, infra := violationsOf(prop, o.rep)
+			if infra != "" {
+				return "", false, "final replay: " + infra
+			}
+			for _, v := range vs {
+				if v.sig() == sig {
+					hit = true
+					detail = v.Detail
+				}
 			}
 		}
 		if !hit {
